@@ -1,6 +1,6 @@
 """Runs the registered checks against the seeded property-breaking changes kept under /verif/seeded/.
 
-usage: /venv/bin/python -B -m mc.seeded_eval [name ...] [--tier quick] [--demo]
+usage: /venv/bin/python -B -m mc.seeded_eval [name or glob ...] [--thorough] [--demo]
 For each seeded/<name>/ (patch.diff, demo.py, meta.json with "property"): a scratch worktree of /repo's
 HEAD is created under /tmp, the patch applied, `./check <property>` run with VERIF_REPO pointing at it
 (evidence and replays go to a scratch directory), the outcome appended to seeded/RESULTS.json, and the
@@ -57,12 +57,20 @@ def main():
     tier = "thorough" if "--thorough" in sys.argv else "quick"
     names = args or sorted(n for n in os.listdir(SEEDED) if os.path.isdir(os.path.join(SEEDED, n)) and os.path.exists(os.path.join(SEEDED, n, "meta.json")))
     respath = os.path.join(SEEDED, "RESULTS.json")
-    results = json.load(open(respath)) if os.path.exists(respath) else {}
+    import fcntl, fnmatch
+    allnames = sorted(n for n in os.listdir(SEEDED) if os.path.isdir(os.path.join(SEEDED, n)) and os.path.exists(os.path.join(SEEDED, n, "meta.json")))
+    names = [m for n in names for m in (fnmatch.filter(allnames, n) if any(c in n for c in "*?[") else [n])]
     for n in names:
         o = evaluate(n, tier, "--demo" in sys.argv)
-        results[n + ":" + tier] = o
         print(n, tier, "DETECTED" if o.get("detected") else "MISSED", json.dumps(o.get("checks", o.get("error")))[:400], flush=True)
-        json.dump(results, open(respath, "w"), indent=1, sort_keys=True)
+        # several evaluators may run side by side: read-modify-write under a lock
+        with open(respath + ".lock", "w") as lk:
+            fcntl.flock(lk, fcntl.LOCK_EX)
+            results = json.load(open(respath)) if os.path.exists(respath) else {}
+            results[n + ":" + tier] = o
+            tmp = respath + ".tmp"
+            json.dump(results, open(tmp, "w"), indent=1, sort_keys=True)
+            os.replace(tmp, respath)
 
 
 if __name__ == "__main__":
